@@ -14,6 +14,9 @@ from vlib import AnchorLost, find_code, match_brace, extract_fn
 from units import vmat
 
 PATH = "src/interpreter/src/functions.rs"
+# the names the contracts were written with, in order of first binding (vlib.canon_bindings maps a pure rename back to them)
+ARM_LOCALS = ['arm_idx', 'arm', 'env', 'matched', 'fxn_call', 'tail_args', 'arg_expr', 'out', 'coerced']
+GUARD_LOCALS = ['arm', 'enum_name', 'missing_patterns']
 
 
 def _model():
@@ -65,7 +68,10 @@ def arm_loop(text):
         start = match_brace(body, mc.end() - 1)
     b = re.sub(r"//[^\n]*", "", body[start:body.rindex("}")]).replace("\r", "")
     b = strip_macro_stmts(b, "trace_println")
+    b = vlib.canon_bindings(sig, b, ["fxn_def", "input_arg_values", "p"], ARM_LOCALS)
     mh = re.search(HDR, b)
+    if not mh:
+        raise AnchorLost("execute_function_match_arms: the loop over fxn_def.code.match_arms not found")
     if mh.group(1):     # `.rev()`: the same loop over descending positions
         hdr = "for r_ in %s..fxn_def.code.match_arms.len() { let arm_idx = fxn_def.code.match_arms.len() - 1 - r_; let arm = &fxn_def.code.match_arms[arm_idx];" % (mh.group(2) or "0")
     else:
@@ -142,6 +148,7 @@ def arity_fn(text):
         raise AnchorLost("execute_user_function: the broadcast attempt that follows the arity guard not found")
     b = re.sub(r"//[^\n]*", "", body[body.index("{") + 1:z.start()]).replace("\r", "")
     b = strip_macro_stmts(b, "trace_println")
+    b = vlib.canon_bindings(sig, b, ["fxn_def", "input_arg_values", "p"], [])
     b = err_to_none(b)
     if re.search(r"\b(Ok|Err|MechError|expression|statement|bind_function_inputs)\b", b) or "return None" not in b:
         raise AnchorLost("execute_user_function: the statements before the broadcast attempt are no longer just the arity guard")
@@ -252,6 +259,7 @@ def guard_fn(text, features):
         raise AnchorLost("match_expression: the wildcard test `if !match_expr.arms.iter().any(..)` not found")
     e = match_brace(body, m.end() - 1)
     b = re.sub(r"//[^\n]*", "", body[m.start():e]).replace("\r", "")
+    b = vlib.canon_bindings(sig, b, ["match_expr", "env", "p"], GUARD_LOCALS)
     b = re.sub(r"^if\s+!\s*match_expr\s*\.arms\s*\.iter\(\)\s*\.any\(\s*\|arm\|\s*matches!\(arm\.pattern,\s*Pattern::Wildcard\)\s*\)", "if !has_wildcard_arm(match_expr)", b)
     b = apply_cfg(b, features)
     b = err_to_none(b)
